@@ -347,6 +347,13 @@ impl Drop for Scratch {
     }
 }
 
+/// Errors that say the *machine* ran out of something (descriptors, threads, memory): a case
+/// that dies of one is inconclusive, never a verdict about the code under test.
+pub fn is_resource_exhaustion(err: &str) -> bool {
+    let e = err.to_ascii_lowercase();
+    ["too many open files", "resource temporarily unavailable", "cannot allocate memory", "os error 24", "os error 11", "os error 12", "no space left on device", "os error 28", "failed to spawn thread"].iter().any(|k| e.contains(k))
+}
+
 /// Removes what a finished (or killed) worker process left in the scratch area: workers end
 /// with `process::exit`, so scratch directories held in statics are never dropped.
 pub fn cleanup_scratch_of(pid: u32) {
@@ -481,6 +488,12 @@ pub fn exec_case(check: &dyn Check, tape: &mut Tape, env: &Env) -> CaseOut {
             let shape = last.as_ref().map(panic_shape).unwrap_or_else(|| "unknown".into());
             let msg = last.map(|p| format!("panic at {}: {}", p.location, p.message)).unwrap_or_default();
             let mut out = CaseOut::default();
+            if is_resource_exhaustion(&msg) {
+                out.class("inconclusive-resource-exhaustion");
+                out.count("inconclusive_resource_exhaustion", 1);
+                out.set_sample(json!({"inconclusive": msg}));
+                return out;
+            }
             out.set_sample(json!({"tape_len": tape.len(), "panic": msg}));
             out.fail(format!("{}/panic/{}", check.id(), shape), msg);
             out
@@ -519,10 +532,12 @@ fn run_pbt_shard(check: &dyn Check, env: &Env, cases: u64, plan: &Plan, inflight
     struct St {
         res: ShardResult,
         target: Option<String>,
+        first_message: String,
     }
     let st = RefCell::new(St {
         res: ShardResult::default(),
         target: None,
+        first_message: String::new(),
     });
 
     let run = runner.run(&strategy, |v| {
@@ -560,6 +575,7 @@ fn run_pbt_shard(check: &dyn Check, env: &Env, cases: u64, plan: &Plan, inflight
             match &s.target {
                 None => {
                     s.target = Some(f.signature.clone());
+                    s.first_message = f.message.clone();
                     return Err(TestCaseError::fail(f.signature.clone()));
                 }
                 Some(t) if *t == f.signature => {
@@ -584,7 +600,7 @@ fn run_pbt_shard(check: &dyn Check, env: &Env, cases: u64, plan: &Plan, inflight
                 .find(|f| f.signature == target)
                 .cloned()
                 .or_else(|| out.failures.first().cloned())
-                .unwrap_or_else(|| Failure::new(target.clone(), "did not reproduce on re-run of the shrunk tape (flaky)"));
+                .unwrap_or_else(|| Failure::new(target.clone(), format!("{} [did not reproduce on re-run of the shrunk tape (flaky)]", st.first_message)));
             st.res.violations.push(ViolationRec {
                 signature: f.signature,
                 message: f.message,
